@@ -191,6 +191,7 @@ def cross_model(task):
             # the same physical model: coordinates are given in angstrom; GRO is written in nm, Cube/FCHK/JSON in bohr
             mm = Model(rng, natom, digits=3, mag="small", elements=[1, 6, 7, 8, 9, 16, 17])
             mm.__dict__.update(m.__dict__)
+            mm.weights_are_masses = True
             unit = {"gromacs": 0.1, "cube": UNIT["angstrom"], "fchk": UNIT["angstrom"], "json_qcschema": UNIT["angstrom"]}.get(fmt, 1.0)
             mm.xyz = m.xyz * unit
             if fmt == "gromacs":
